@@ -164,9 +164,14 @@ func Suspend(f func()) {
 // ---------------------------------------------------------------- time
 
 // Hang is the panic value raised when a run exceeds its tick budget.
-type Hang struct{ Ticks uint64 }
+type Hang struct {
+	Ticks uint64
+	Func  string // the function that was executing when the budget ran out
+}
 
-func (h Hang) Error() string { return fmt.Sprintf("simrt: tick budget exceeded (%d ticks)", h.Ticks) }
+func (h Hang) Error() string {
+	return fmt.Sprintf("simrt: tick budget exceeded (%d ticks) in %s", h.Ticks, h.Func)
+}
 
 // Overflow is the panic value raised when the call depth exceeds its budget.
 type Overflow struct {
@@ -176,6 +181,16 @@ type Overflow struct {
 
 func (o Overflow) Error() string {
 	return fmt.Sprintf("simrt: call depth exceeded (%d frames) in %s", o.Depth, o.Func)
+}
+
+// callerName names the instrumented function that called Tick/Enter.
+func callerName() string {
+	if pc, _, _, ok := runtime.Caller(2); ok {
+		if f := runtime.FuncForPC(pc); f != nil {
+			return f.Name()
+		}
+	}
+	return "?"
 }
 
 // Tick advances simulated time by one unit. Inserted at every loop head.
@@ -189,7 +204,7 @@ func Tick() {
 	}
 	r.Ticks++
 	if r.Ticks > r.MaxTicks {
-		r.Aborted = Hang{r.Ticks}
+		r.Aborted = Hang{r.Ticks, callerName()}
 		panic(r.Aborted)
 	}
 }
@@ -209,17 +224,11 @@ func Enter() {
 		r.PeakDepth = r.Depth
 	}
 	if r.Depth > r.MaxDepth {
-		fn := "?"
-		if pc, _, _, ok := runtime.Caller(1); ok {
-			if f := runtime.FuncForPC(pc); f != nil {
-				fn = f.Name()
-			}
-		}
-		r.Aborted = Overflow{r.Depth, fn}
+		r.Aborted = Overflow{r.Depth, callerName()}
 		panic(r.Aborted)
 	}
 	if r.Ticks > r.MaxTicks {
-		r.Aborted = Hang{r.Ticks}
+		r.Aborted = Hang{r.Ticks, callerName()}
 		panic(r.Aborted)
 	}
 }
